@@ -13,6 +13,7 @@ pub mod c13;
 pub mod c14;
 pub mod c16;
 pub mod c17;
+pub mod c18;
 pub mod util;
 
 pub fn dispatch(id: &str, args: &Args) -> Option<Report> {
@@ -28,6 +29,7 @@ pub fn dispatch(id: &str, args: &Args) -> Option<Report> {
         "C14" => c14::run(args),
         "C16" => c16::run(args),
         "C17" => c17::run(args),
+        "C18" => c18::run(args),
         _ => return None,
     })
 }
